@@ -7,7 +7,7 @@ SAVES = ['serialize_database', 'serialize', 'parts', 'parts_reordered', 'persist
 LOADS = ['input', 'one', 'files', 'load_metamodel']
 EXOTIC = {
     'STRING': ['s@quote', 's@qq', 's@comment', 's@nl', 's@uni', 's@semi', 's@paren', 's@kw', 's@tab', 's@bs', 's@dq',
-               's@nul', 's@pct', 's:', 's:plain'],
+               's@nul', 's@pct', 's:', 's:plain', 's@bsq', 's@bsend', 's@qends', 's@q1'],
     'INTEGER': ['i@big', 'i@pos', 'i:-3', 'i:0', 'i:7'],
     'UNIQUE_ID': ['u@big', 'u@mid'],
     'REAL': list(schemas.REALNORM),
